@@ -207,6 +207,12 @@ def run_case(case, ctx):
         tolc = cfg.get("cg_tolerance") or 1.0
         # the solver tracks the recursively updated (and, with a preconditioner, differently normed) residual, not the true one
         bound = 5 * tolc + 1e-5 + 10 * kappa * eps
+        begs = rec.of("cg.begin")
+        if begs and any(tuple(bg["rhs"].shape[-2:-1]) != (n,) for bg in begs):
+            # CG ran on a PART of the operator (a Kronecker factor, a block): its relative residual there is amplified by the condition of
+            # the other parts in the residual of the whole system
+            bound = min(0.5, bound * max(kappa, 1.0))
+            ctx.stat("cg_on_a_part_of_the_operator(bound amplified by kappa)")
         if left is None:
             g64 = got.to(torch.float64)
             if rhs.dim() > 1:
